@@ -25,6 +25,7 @@ var (
 	AddrSuicide2   = common.HexToAddress("0x000000000000000000000000000000000000100d") // second self-destructor
 	AddrEmptyAcct  = common.HexToAddress("0x000000000000000000000000000000000000100e") // exists in genesis with nonce 1 only
 	AddrCallFail   = common.HexToAddress("0x000000000000000000000000000000000000100f") // CALL(w0, value w1, data rest), SSTORE, then INVALID
+	AddrBlockhash  = common.HexToAddress("0x0000000000000000000000000000000000001010") // SSTORE(w0, BLOCKHASH(NUMBER - w0)); LOG1(topic = that hash)
 )
 
 const (
@@ -131,13 +132,22 @@ func codeCallFail() []byte {
 	return a.Bytes()
 }
 
+func codeBlockhash() []byte {
+	a := NewAsm()
+	// h = BLOCKHASH(NUMBER - w0)
+	a.Push(0).Op(CALLDATALOAD, NUMBER, SUB, BLOCKHASH) // [h]
+	a.Op(DUP1).Push(0).Op(CALLDATALOAD, SSTORE)        // SSTORE(w0, h)  [h]
+	a.Push(0).Push(0).Op(LOG0+1, STOP)                 // LOG1(0,0,h)
+	return a.Bytes()
+}
+
 // ZooCode maps each zoo address to its runtime code.
 func ZooCode() map[common.Address][]byte {
 	return map[common.Address][]byte{
 		AddrStore: codeStore(), AddrMultiStore: codeMultiStore(), AddrEmit: codeEmit(), AddrReverter: codeReverter(),
 		AddrOOG: codeOOG(), AddrInvalid: codeInvalid(), AddrForwarder: codeForwarder(), AddrCreator: codeCreator(),
 		AddrSuicide: codeSuicide(), AddrRecursor: codeRecursor(), AddrBouncer: codeBouncer(),
-		AddrForwarder2: codeForwarder(), AddrSuicide2: codeSuicide(), AddrCallFail: codeCallFail(),
+		AddrForwarder2: codeForwarder(), AddrSuicide2: codeSuicide(), AddrCallFail: codeCallFail(), AddrBlockhash: codeBlockhash(),
 	}
 }
 
